@@ -6,9 +6,9 @@ import (
 	"strings"
 
 	dragonboat "github.com/lni/dragonboat/v4"
-	pb "github.com/lni/dragonboat/v4/raftpb"
 	"github.com/lni/dragonboat/v4/internal/fileutil"
 	"github.com/lni/dragonboat/v4/internal/server"
+	pb "github.com/lni/dragonboat/v4/raftpb"
 	"github.com/lni/dragonboat/v4/tools"
 	"github.com/lni/dragonboat/v4/verifsim/coro"
 	"github.com/lni/dragonboat/v4/verifsim/runner"
